@@ -57,9 +57,13 @@ def f32(x):
     except OverflowError: return math.copysign(math.inf, x)
 
 def tainted(*vs):
+    """taint of a value computed from vs: True (uninitialised memory) dominates 'havoc' / 'clock' (over-approximated inputs)"""
+    r = False
     for v in vs:
-        if isinstance(v, (SV, SF)) and v.taint: return True
-    return False
+        if isinstance(v, (SV, SF)) and v.taint:
+            if v.taint is True: return True
+            r = v.taint
+    return r
 
 def szof(v): return v.sz if isinstance(v, SV) else 0
 SIMP_AT = 12
